@@ -420,7 +420,9 @@ class Query:
 
         :return: CreateQueryBuilder
         """
-        return CreateQueryBuilder().create_table(table)
+        builder = CreateQueryBuilder()
+        builder.QUERY_CLS = cls  # type:ignore[misc]
+        return builder.create_table(table)
 
     @classmethod
     def drop_table(cls, table: str | Table) -> "DropQueryBuilder":
@@ -432,7 +434,9 @@ class Query:
 
         :return: DropQueryBuilder
         """
-        return DropQueryBuilder().drop_table(table)
+        builder = DropQueryBuilder()
+        builder.QUERY_CLS = cls  # type:ignore[misc]
+        return builder.drop_table(table)
 
     @classmethod
     def into(cls, table: Table | str, **kwargs: Any) -> "QueryBuilder":
@@ -2250,7 +2254,7 @@ class DropQueryBuilder:
         self._if_exists: bool | None = None
 
     def get_sql(self, ctx: SqlContext | None = None) -> str:
-        ctx = ctx or self.SQL_CONTEXT
+        ctx = ctx or self.QUERY_CLS.SQL_CONTEXT
 
         if not self._drop_table:
             return ""
